@@ -304,9 +304,18 @@ def run_case(case, name):
 
     rapid = bool(case.get("rapid"))
 
+    def issue_top(c):
+        """a command issued by the main thread; the moment it returns is marked in the log"""
+        t1 = time.time()
+        r = issue(c)
+        with lock:
+            rec["log"].append(["ret", c, r, round(time.time() - t1, 3), sim.run_state.name,
+                               sim.replication_state.name])
+        return r
+
     def run_seq(cmds):
         for c in cmds:
-            r = issue(c)
+            r = issue_top(c)
             # "rapid" cases issue the next command as soon as start() has returned
             quiet = None if (rapid and c[0] == "start" and r == "ok") else settle()
             if c[0] in ("init", "cleanup", "initbad"):
@@ -318,17 +327,19 @@ def run_case(case, name):
     else:
         run_seq(case.get("setup", []))
         hold = case["hold_gate"]                  # index of the gate the run thread is held at
-        r0 = issue(case["runcmd"])
+        r0 = issue_top(case["runcmd"])
         rec["runcmd_outcome"] = r0
         t0 = time.time()
         while not gstate[hold]["reached"] and time.time() - t0 < 3.0:
             time.sleep(0.0002)
         rec["hold_reached"] = gstate[hold]["reached"]
         rec["held_state"] = gstate[hold]["seen"]
+        # the shared state at the moment the overlapping command is issued, and whether the gate still holds
+        rec["at_issue"] = [sim.run_state.name, sim.replication_state.name, not gstate[hold]["passed"]]
         with lock:
             rec["log"].append(["overlap-begin", case["cmd"], sim.run_state.name, sim.replication_state.name])
         t1 = time.time()
-        r = issue(case["cmd"])
+        r = issue_top(case["cmd"])
         rec["cmd_wall"] = round(time.time() - t1, 3)
         progress["main_returned"] = True
         time.sleep(0.002)
